@@ -63,9 +63,11 @@ CHECKS = {
  "C08": dict(tech="static analysis: interprocedural taint (content/length) from the datagram and stream reads, control-dependence rule for fatal sinks, bounds obligations discharged by the compiler's bounds-check elimination and a linear prover (guard facts, reaching stores, phi/merge/call case splits, callee summaries, field invariants, caller lifting), cursor-progress rule, listener-read rule on SSA",
    text="Structural necessary conditions decided exactly for their clause, over the 14 receive loops/clients and everything reachable from them with network-derived data: (fatal) no panic / os.Exit / log-fatal is control dependent on a condition over network data, except behind library errors listed as assumed-infallible with a reason; (bounds) every index, slice, fixed-width read, unsafe.Pointer access and AEAD nonce length on network-sized data is in range - proved by the Go compiler's own bounds-check elimination or by the prover from dominating guards, or at every call site; (progress) every loop over network bytes advances its cursor by >= 1; (listener) the SCION PacketConn read used by the QUIC listener returns an error only for socket errors; (sources) the set of network reads is as inventoried. Panics inside library code (gopacket/slayers, quic-go, crypto/tls, miscreant other than nonce length) and resource exhaustion are not decided.",
    ref="DESIGN.md §4 C08"),
+ "C04": dict(tech="static analysis: linear-inequality invariants over all paths of the two conversion functions (exact floor inequalities for integer division, shifts and constant multiplications; per-edge case split at merges; goals decided by Fourier-Motzkin refutation inside the analyzer), linear-form congruence check, cross-function composition of the sub-second conversions",
+   text="Decided as linear invariants, for all values at once, no value computed: for every reference from 1970 on the second count handed to time.Unix by TimeFromTime64 lies in [tref-2^31, tref+2^31) on every path and is epoch + k*2^32 + Seconds (the unique representative within half an era, on both sides of an era boundary); Time64FromTime stores uint32(t.Unix()-epoch); the fraction floor(n*2^32/10^9) fits 32 bits for all n in [0,10^9); composed with the backward conversion n-1 <= n' <= n for all n (never later, at most 1 ns earlier). Order preservation is not decided as such (it follows from the monotone floor functions); the single point t-reference = +2^31 s and references before 1970 are outside the claim.",
+   ref="DESIGN.md §A.7"),
 }
 NA = {
- "C04": "all clauses are value arithmetic over time.Time/uint32 (truncation direction, era unfolding, order preservation); no structural or finite-domain clause; matching the constants would be a frozen-fragment proxy",
 }
 def main():
     here = os.path.dirname(os.path.dirname(os.path.abspath(__file__)))
